@@ -597,7 +597,7 @@ def run_async_schedules(ctx):
                'model': {k: m[k] for k in ('calls', 'raised', 'contained', 'residue', 'pcs')},
                'oracle': fails, 'correspondence': diffs}
         if fails:
-            ctx.violation('oracle', 'asyncio schedule violates C04 (disconnect handler exactly once / no trace): %s' % fails, rep)
+            ctx.violation('oracle', 'asyncio schedule violates the lifecycle property (handler exactly once, no trace, concurrent frames answered as the state requires): %s' % fails, rep)
         elif diffs:
             ctx.violation('correspondence', 'asyncio schedule: model and implementation differ: %s' % diffs, rep, no_input=True)
         if any(isinstance(x, list) for x in obs['sched']):
@@ -693,3 +693,29 @@ def replay(ctx, rep):
     print('oracle:        ', 'holds' if not fails else fails)
     print('correspondence:', correspondence(obs, m) or 'agrees')
     return 1 if fails else 0
+
+
+def run_event_during_disconnect(ctx):
+    """C05's schedule clause: an EVENT of a client whose disconnect is in progress (any terminating cause, any
+    release order, suspended in handler and send) is dispatched and acknowledged iff the session was still connected
+    at that instant — judged on the real AsyncServer; reports through ctx (coverage keys `sched_event_*`)."""
+    runs = fails_n = 0
+    samples = []
+    for cs in cause_sets(2):
+        if 'lost' in cs:
+            continue
+        cfg = {'causes': cs, 'mode': 'both', 'others': False, 'conn': False, 'side': ['event']}
+        for obs in explore(cfg):
+            runs += 1
+            fails = [f for f in oracle(obs) if 'EVENT' in str(f) or 'event' in str(f)]
+            if fails:
+                fails_n += 1
+                ctx.violation('oracle', 'an event sent while the client\'s disconnect is in progress is not handled as the '
+                              'session state at that instant requires: %s' % fails,
+                              {'kernel': 'sched_async', 'cfg': cfg, 'sched': obs['sched'], 'oracle': fails,
+                               'observed': {'side': obs.get('side'), 'calls': obs['calls']}})
+            if len(samples) < 2 and runs % 41 == 1:
+                samples.append({'cfg': cfg, 'sched': obs['sched'], 'event': (obs.get('side') or {}).get('event')})
+    ctx.coverage['sched_event_runs'] = runs
+    ctx.coverage['sched_event_samples'] = samples
+    return runs, fails_n
